@@ -74,7 +74,20 @@ func (s *Netceptor) listen(ctx context.Context, service string, tlscfg *tls.Conf
 			tlscfg.GetConfigForClient = func(hi *tls.ClientHelloInfo) (*tls.Config, error) {
 				clientTLSCfg := tlscfg.Clone()
 				remoteNode := strings.Split(hi.Conn.RemoteAddr().String(), ":")[0]
-				clientTLSCfg.VerifyPeerCertificate = ReceptorVerifyFunc(tlscfg, [][]byte{}, remoteNode, ExpectedHostnameTypeReceptor, VerifyClient, s.Logger)
+				// Bind the client certificate to the node the packets come from, on top of - not instead of -
+				// the verification the configuration already carries (it is the one that knows the pinned
+				// client certificate fingerprints).
+				configuredVerify := tlscfg.VerifyPeerCertificate
+				nodeVerify := ReceptorVerifyFunc(tlscfg, [][]byte{}, remoteNode, ExpectedHostnameTypeReceptor, VerifyClient, s.Logger)
+				clientTLSCfg.VerifyPeerCertificate = func(rawCerts [][]byte, verifiedChains [][]*x509.Certificate) error {
+					if configuredVerify != nil {
+						if err := configuredVerify(rawCerts, verifiedChains); err != nil {
+							return err
+						}
+					}
+
+					return nodeVerify(rawCerts, verifiedChains)
+				}
 
 				return clientTLSCfg, nil
 			}
